@@ -50,6 +50,17 @@ def log(*a):
     print(*a, flush=True)
 
 
+def _big_stack():
+    """The extracted models recurse over byte lists (non-tail calls in extracted code): give the
+    driver the largest stack the system allows (megabyte-sized segments need more than 8 MiB)."""
+    import resource
+    soft, hard = resource.getrlimit(resource.RLIMIT_STACK)
+    try:
+        resource.setrlimit(resource.RLIMIT_STACK, (hard, hard))
+    except (ValueError, OSError):
+        pass
+
+
 def sh(cmd, cwd=None, env=None, timeout=None, stdin=None, stdout=None):
     """Run a command, return (rc, combined output)."""
     try:
@@ -360,7 +371,7 @@ def run_pair(res, cfg, run, exe, tier, seed, replay_file=None):
     cases = os.path.join(outdir, "cases.txt")
     with open(cases, "rb") as fin, open(os.path.join(outdir, "model.out"), "wb") as fout:
         p = subprocess.run([drv] + run.get("driver_args", []), stdin=fin, stdout=fout, stderr=subprocess.PIPE,
-                           timeout=run.get("timeout", 3000))
+                           timeout=run.get("timeout", 3000), preexec_fn=_big_stack)
     if p.returncode != 0:
         return None, [], "model driver failed: " + p.stderr.decode("utf-8", "replace")[-2000:]
     c = read_lines(cases)
